@@ -37,7 +37,7 @@ import (
 //
 // Observed: the status the clone ends with, how the new controller lists it, its chain, its revision
 // counter and the image read through the new controller.
-func (im *Impl) clone(name string) (out string) {
+func (im *Impl) clone(name string, late bool) (out string) {
 	if im.rep() == nil || im.rb != nil {
 		return "refused"
 	}
@@ -156,6 +156,11 @@ func (im *Impl) clone(name string) (out string) {
 		}
 	}
 	defer stopPolling()
+	if late {
+		// app/replica.go notices that the controller has opened the replica only at its next 2 s tick:
+		// the controller's first status poll then still sees the empty status
+		time.Sleep(300 * time.Millisecond)
+	}
 	if err := t.Replica().SetCloneStatus("inProgress"); err != nil {
 		return "set-status-failed"
 	}
